@@ -510,3 +510,62 @@ Proof.
   assert (E := sep_step_all t H [] [] (fun Hne => False_ind _ (Hne eq_refl))).
   unfold txs in E. rewrite E. unfold flush, flush_text. cbn [fst snd flat_map app]. reflexivity.
 Qed.
+
+(* ------------------------------------------------------------------------------------------ *)
+(* escape is applied blindly: it never recognises text that already looks escaped                *)
+Definition is_special (c : N) : bool := (c =? c_amp) || (c =? c_lt) || (c =? c_gt) || (c =? c_quot) || (c =? c_apos).
+
+Lemma esc_char_plain : forall c, is_special c = false -> esc_char c = [c].
+Proof.
+  intros c H. unfold is_special in H. unfold esc_char.
+  destruct (c =? c_amp); [discriminate|]. destruct (c =? c_lt); [discriminate|]. destruct (c =? c_gt); [discriminate|].
+  destruct (c =? c_quot); [discriminate|]. destruct (c =? c_apos); [discriminate|]. reflexivity.
+Qed.
+Lemma esc_char_special : forall c, is_special c = true -> exists r, esc_char c = c_amp :: r /\ (2 <= List.length r)%nat.
+Proof.
+  intros c H. destruct (classify c) as [->| ->| ->| ->| ->|E1 E2 E3 E4 E5 E];
+    try (eexists; split; [reflexivity|cbn; lia]).
+  unfold is_special in H. rewrite E1, E2, E3, E4, E5 in H. discriminate.
+Qed.
+
+Lemma escape_length : forall s, (List.length s <= List.length (escape s))%nat.
+Proof.
+  induction s as [|c s IH]; [reflexivity|]. rewrite escape_cons, app_length.
+  destruct (is_special c) eqn:E.
+  - destruct (esc_char_special c E) as (r & -> & Hr). cbn [List.length]. lia.
+  - rewrite (esc_char_plain c E). cbn [List.length]. lia.
+Qed.
+
+(* escape leaves a string alone only when it has none of the five characters: in particular it re-escapes the ampersand of
+   anything that looks like a character reference *)
+Theorem escape_fixpoint_iff : forall s, escape s = s <-> forallb (fun c => negb (is_special c)) s = true.
+Proof.
+  induction s as [|c s IH]; [split; reflexivity|]. rewrite escape_cons. cbn [forallb]. split.
+  - intros H. destruct (is_special c) eqn:E.
+    + exfalso. destruct (esc_char_special c E) as (r & Er & Hr). rewrite Er in H.
+      assert (L := f_equal (@List.length N) H). cbn [app List.length] in L. rewrite app_length in L.
+      assert (L2 := escape_length s). lia.
+    + rewrite (esc_char_plain c E) in H. cbn [app] in H. injection H as H1. cbn [negb andb]. now apply IH.
+  - intros H. apply andb_prop in H. destruct H as [Hc Hs]. apply negb_true_iff in Hc.
+    rewrite (esc_char_plain c Hc). cbn [app]. f_equal. now apply IH.
+Qed.
+
+Lemma escape_has_amp : forall s, forallb (fun c => negb (is_special c)) s = false ->
+  forallb (fun c => negb (is_special c)) (escape s) = false.
+Proof.
+  induction s as [|c s IH]; intros H; [discriminate|]. rewrite escape_cons, forallb_app. cbn [forallb] in H.
+  destruct (is_special c) eqn:E.
+  - destruct (esc_char_special c E) as (r & -> & _). reflexivity.
+  - rewrite (esc_char_plain c E). cbn [forallb]. rewrite E. cbn [negb andb] in H |- *. now apply IH.
+Qed.
+
+(* escaping twice is never the same as escaping once, unless nothing had to be escaped at all *)
+Theorem escape_twice : forall s, escape (escape s) = escape s -> escape s = s.
+Proof.
+  intros s H. apply escape_fixpoint_iff in H. apply escape_fixpoint_iff.
+  destruct (forallb (fun c => negb (is_special c)) s) eqn:E; [reflexivity|].
+  rewrite (escape_has_amp s E) in H. discriminate.
+Qed.
+
+Example escape_reescapes_a_reference : escape (c_amp :: e_amp) = c_amp :: e_amp ++ e_amp.
+Proof. reflexivity. Qed.
